@@ -309,6 +309,8 @@ impl PhoneticSuggestion {
 
                         // Save this for future reuse.
                         selections.insert(string.word().to_string(), selected.to_string());
+                        // The selection is found, another base + suffix split must not be appended to it.
+                        break;
                     }
                 }
             }
